@@ -8,26 +8,30 @@ import json, os, re, subprocess, time
 ROOT = os.path.dirname(os.path.dirname(os.path.abspath(__file__)))
 KDIR = os.path.join(ROOT, "kani")
 WORK = os.environ.get("VERIF_WORK") or os.path.join(ROOT, ".work")
-HARNESSES = ["tlv_roundtrip", "adpu_roundtrip", "llv_roundtrip", "lllv_roundtrip",
+HARNESSES = ["tlv_roundtrip", "adpu_roundtrip", "llv_roundtrip", "lllv_roundtrip", "tlv_bare", "adpu_bare", "llv_bare", "lllv_bare",
              "le_u8_roundtrip", "le_u16_roundtrip", "le_u32_roundtrip", "le_u64_roundtrip", "le_usize_roundtrip",
              "be_u8_roundtrip", "be_u16_roundtrip", "be_u32_roundtrip", "be_u64_roundtrip", "be_usize_roundtrip",
              "tag_default_roundtrip", "tag_be_roundtrip", "bcd_u8_roundtrip", "bcd_u16_roundtrip"]
 BOUNDS = {"tlv_roundtrip": "len <= 65535, any suffix byte; unwind 9 (complete: unwinding assertions)",
           "adpu_roundtrip": "len <= 65535, any suffix byte; unwind 9 (complete)",
           "llv_roundtrip": "len <= 99; unwind 9 (complete)", "lllv_roundtrip": "len <= 999; unwind 9 (complete)",
+          "tlv_bare": "len <= 65535, every truncation of the prefix; unwind 9 (complete)", "adpu_bare": "len <= 65535, every truncation; unwind 9 (complete)",
+          "llv_bare": "len <= 99, every truncation; unwind 9 (complete)", "lllv_bare": "len <= 999, every truncation; unwind 9 (complete)",
           "bcd_u8_roundtrip": "all u8; unwind 4 (complete)", "bcd_u16_roundtrip": "all u16; unwind 5 (complete)"}
 
 
 def twins_for(rid):
-    r = rid.replace(" ", "")
+    """harnesses that exercise the function named in an obligation id (`implLengthforTlv::deserialize#..`) or in an extraction
+    message (`impl Length for Tlv | deserialize`)"""
+    r = rid.replace(" ", "").replace("|", "::")
     out = []
     if "implLengthforTlv::" in r:
-        out.append("tlv_roundtrip")
+        out += ["tlv_roundtrip", "tlv_bare"]
     if "implLengthforAdpu::" in r:
-        out.append("adpu_roundtrip")
+        out += ["adpu_roundtrip", "adpu_bare"]
     if "implLengthforLlvImpl<N>::" in r:
-        out += ["llv_roundtrip", "lllv_roundtrip"]
-    m = re.search(r"Encoding<(u8|u16|u32|u64|usize)>for(Default|BigEndian|Bcd)::", r)
+        out += ["llv_roundtrip", "lllv_roundtrip", "llv_bare", "lllv_bare"]
+    m = re.search(r"Encoding<(u8|u16|u32|u64|usize)>for(?:encoding::)?(Default|BigEndian|Bcd)::", r)
     if m:
         h = {"Default": "le", "BigEndian": "be", "Bcd": "bcd"}[m.group(2)] + "_" + m.group(1) + "_roundtrip"
         if h in HARNESSES:
@@ -37,6 +41,39 @@ def twins_for(rid):
     if re.search(r"Encoding<Tag>forBigEndian::", r):
         out.append("tag_be_roundtrip")
     return out
+
+
+def props_of(h, failed_checks):
+    """which properties a FAILED harness refutes: the round trip it asserts (C01 and the codec's own property), the APDU header
+    agreement for the APDU style (C04), and C02 when the failure is a panic of the real code rather than a wrong result"""
+    ps = {"C01"}
+    ps.add("C16" if h.split("_")[0] in ("tlv", "adpu", "llv", "lllv") else "C17")
+    if h.startswith("adpu"):
+        ps.add("C04")
+    if re.search(r"overflow|index out of bounds|out of range|unwrap|expect|panic|slice", failed_checks or "", re.I):
+        ps.add("C02")
+    return ps
+
+
+def refute(pid, hint=""):
+    """Fallback when the deductive check of `pid` ends undecided (a rewritten body lost its loop anchor, an unsupported
+    construct, a crashed verifier): the bounded stand-ins still run on the real code whatever its shape. Returns a
+    counterexample record (as `counterexample`) if a harness that speaks about `pid` fails AND the replay confirms it,
+    else None - a harness that passes proves nothing beyond its stated domain and leaves the outcome undecided."""
+    cands = [h for h in twins_for(hint)] or list(HARNESSES)
+    for h in cands:
+        base = {"C01", "C02", "C04" if h.startswith("adpu") else "", "C16" if h.split("_")[0] in ("tlv", "adpu", "llv", "lllv") else "C17"}
+        if pid not in base:
+            continue
+        st, vals, dt, tail = run_harness(h)
+        if st != "failed" or not vals or pid not in props_of(h, tail):
+            continue
+        rc, out, cmd = replay(h, vals)
+        if rc == 1:
+            return {"engine": "kani 0.68 (cbmc) on the real zvt_builder crate", "harness": h, "harness_domain": BOUNDS.get(h, "full domain of the type, loop-free"),
+                    "input": vals, "kani_failed_checks": tail, "kani_seconds": round(dt, 1),
+                    "replay_cmd": cmd, "replay_exit_code": rc, "replay_output": out}
+    return None
 
 
 def _env():
